@@ -28,6 +28,9 @@ for k, v in c11.unchecked_callers(World('devcurves')).items():
     uc.setdefault(k, set()).update(v)
 json.dump({k: sorted(v) for k, v in sorted(uc.items())}, open(os.path.join(facts.VERIF, 'rules', 'unchecked_callers.json'), 'w'), indent=1)
 print('unchecked decoders', len(uc))
+sel = dprops.mine_selectors(w)
+json.dump(sel, open(os.path.join(facts.VERIF, 'rules', 'selectors.json'), 'w'), indent=1)
+print('selector places', len(sel))
 rc = dprops.mine_retcover(w)
 json.dump(rc, open(os.path.join(facts.VERIF, 'rules', 'retcover.json'), 'w'), indent=1)
 print('shortcut returns', len(rc))
